@@ -142,6 +142,8 @@ def _rhs(name, shape, dtype):
         return r
     if name == "big":
         return (_dense(shape, dtype, 1) * dtype(1e6)).astype(dtype)
+    if name == "zero":
+        return np.zeros(shape, dtype=dtype)
     raise KeyError(name)
 
 
@@ -153,12 +155,12 @@ def case_history(dim, shape, x_range, dtype, depth, poison_val):
     ref = greens_matrix(shape, dx)
     scale = np.abs(ref).max()
     tol = _tol(dtype, scale, n)
-    events = [("solve", "a"), ("solve", "b"), ("solve", "big"), ("poison", "dd"), ("poison", "fourier"), ("poison", "conv")]
+    events = [("solve", "a"), ("solve", "b"), ("solve", "big"), ("solve", "zero"), ("poison", "dd"), ("poison", "fourier"), ("poison", "conv")]
     if dim == 3:
         events.insert(3, ("vsolve", ""))
-    rhs = {k: _rhs(k, shape, dtype) for k in ("a", "b", "big")}
+    rhs = {k: _rhs(k, shape, dtype) for k in ("a", "b", "big", "zero")}
     want = {k: (ref @ v.ravel().astype(np.float64)).reshape(shape) for k, v in rhs.items()}
-    vrhs = np.stack([rhs["b"], rhs["big"], rhs["a"]]) if dim == 3 else None
+    vrhs = np.stack([rhs["b"], rhs["zero"], rhs["a"]]) if dim == 3 else None
     tag = f"hist:dim={dim}"
 
     def build():
@@ -168,7 +170,7 @@ def case_history(dim, shape, x_range, dtype, depth, poison_val):
         kind, arg = ev
         if kind == "solve":
             r = rhs[arg].copy()
-            s.sol[...] = 0
+            # the target is NOT cleared: it holds the previous solution, as the simulators' stream function does
             s.solver.solve(solution_field=s.sol, rhs_field=r)
             return ("solve", arg, np.array_equal(r, rhs[arg]))
         if kind == "vsolve":
@@ -207,7 +209,7 @@ def case_history(dim, shape, x_range, dtype, depth, poison_val):
         elif obs[0] == "vsolve":
             if not obs[1]:
                 fl.append(Fail(f"{tag}:vector-solve", "vector solve differs from three scalar solves on the same object", history=h))
-            for c, k in enumerate(("b", "big", "a")):
+            for c, k in enumerate(("b", "zero", "a")):
                 t = tol * max(1.0, np.abs(rhs[k]).sum())
                 if not np.all(np.isfinite(s.vsol[c])) or np.abs(s.vsol[c] - want[k]).max() > t:
                     fl.append(Fail(f"{tag}:vector-solve-value", "vector solve component differs from the reference convolution", history=h, component=c))
@@ -221,7 +223,33 @@ def case_history(dim, shape, x_range, dtype, depth, poison_val):
                       extra={"depth": res.depth_completed, "bfs_states": res.states, "example_histories": res.histories})
 
 
-CASES = {"basis": case_basis, "history": case_history}
+def case_sequence(dim, shape, order, dtype):
+    """Construction history: several solvers of the same shape but different domain length (and a
+    different shape in between) built in ONE process, each then checked against the reference."""
+    dtype = np.dtype(dtype).type
+    shape = tuple(shape)
+    fails = []
+    trans = 0
+    n = int(np.prod(shape))
+    seq = [X_RANGES[i] for i in order]
+    other = tuple(reversed(shape))
+    for k, xr in enumerate(seq):
+        solver = _mk(dim, shape, xr, dtype)
+        if k == 0:
+            _mk(dim, other, xr * 0.5, dtype)  # an unrelated solver in between
+        ref = greens_matrix(shape, xr / shape[-1])
+        tol = _tol(dtype, np.abs(ref).max(), n)
+        rhs = _dense(shape, dtype, k)
+        sol = np.zeros(shape, dtype=dtype)
+        solver.solve(solution_field=sol, rhs_field=rhs)
+        trans += 1
+        want = (ref @ rhs.ravel().astype(np.float64)).reshape(shape)
+        if not np.all(np.isfinite(sol)) or np.abs(sol - want).max() > tol * np.abs(rhs).sum():
+            fails.append(Fail(f"dim={dim}:construction-history", "a solver built after another solver (same shape, different domain length) in the same process gives a wrong result", shape=shape, x_ranges=seq, position=k, dtype=dtype))
+    return CaseResult(fails=fails, states=len(seq), transitions=trans, traces=trans, outcome=f"seq:{dim}:{shape}:{order}")
+
+
+CASES = {"basis": case_basis, "history": case_history, "sequence": case_sequence}
 
 
 def run(r) -> None:
@@ -234,6 +262,12 @@ def run(r) -> None:
     if quick:
         shapes2 += [(7, 6), (6, 7)]
         shapes3 += [(4, 3, 5), (5, 4, 2)]
+    # sizes with prime factors 7, 11, 13 (and 14 = 2 * 7, 9 = 3^2, 8 = 2^3) on every axis position
+    for n in (7, 11, 13, 14, 9, 8):
+        shapes2 += [(n, 2), (3, n)]
+        shapes3 += [(n, 2, 3), (2, n, 2), (3, 2, n)]
+    shapes2 = list(dict.fromkeys(shapes2))
+    shapes3 = list(dict.fromkeys(shapes3))
     dts = ["float64", "float32"]
     basis = []
     for shape in shapes2:
@@ -253,11 +287,13 @@ def run(r) -> None:
             for pv in (float("nan"), 1e30):
                 hist.append(dict(dim=dim, shape=shape, x_range=X_RANGES[(r.seed + dim) % 3], dtype=dt, depth=depth, poison_val=pv))
     r.run_cases("history", "history", hist)
+    seqs = [dict(dim=d, shape=sh, order=list(o), dtype=dt) for d, sh in ((2, (4, 6)), (3, (3, 4, 5))) for o in itertools.permutations(range(3)) for dt in dts]
+    r.run_cases("construction-sequences", "sequence", seqs)
     r.bounds = {
         "shapes_2d": f"{{{s2.start}..{s2.stop - 1}}}^2" + (" + (7,6),(6,7)" if quick else ""),
         "shapes_3d": f"{{{s3.start}..{s3.stop - 1}}}^3" + (" + (4,3,5),(5,4,2)" if quick else ""),
         "x_range": X_RANGES, "dtypes": dts, "history_depth": depth,
-        "history_alphabet": "solve(e_first), solve(-3 e_last), solve(1e6*dense), vector solve (3-D), poison(doubled|fourier|convolution buffer) with NaN and 1e30",
+        "history_alphabet": "solve(e_first), solve(-3 e_last), solve(1e6*dense), solve(0), vector solve with one zero component (3-D), poison(doubled|fourier|convolution buffer) with NaN and 1e30; solution target never cleared between solves",
     }
     r.extra["rule"] = (
         "basis: every unit impulse of every enumerated shape on the real solver (state = one matrix column); "
